@@ -194,10 +194,10 @@ func (cp *FreeList) ToGC() (string, error) {
 		return workFilePath, nil
 	}
 
-	_, err = cp.Flush()
-	if err != nil {
-		return "", err
-	}
+	// Do not flush the pool of pending entries here. Entries are written to
+	// the freelist file by the store's commit, after the primary and the
+	// index, so everything in the file refers to index changes that are
+	// already on disk. Pending entries are handed over in a later cycle.
 
 	vhook.At("fl.togc.flushed")
 	cp.flushLock.Lock()
